@@ -63,3 +63,9 @@ Example ex_optcall_runs :
   wit_run (ECall (EDot ex_a 1 OcNone) [ex_b] OcStart)
   = ([(4, [VObj 100; VUndef]); (2, [VNum 7; VStr 1]); (4, [VObj 100; VUndef; VNum 1]); (4, [VObj 50; VNum 7; VNum 7])], 1, Ok (VNum 7)).
 Proof. vm_compute. reflexivity. Qed.
+
+Example ex_index_some :
+  lowerLogicalAsg all_features BAnd (EIndex ex_a ex_b OcNone) (ENum 3) 0
+  = Some (EBin BAnd (EIndex (EAssign (ETmp 0) ex_a) (EAssign (ETmp 1) ex_b) OcNone)
+                    (EAssign (EIndex (ETmp 0) (ETmp 1) OcNone) (ENum 3)), 2).
+Proof. reflexivity. Qed.
